@@ -172,6 +172,25 @@ def v16(dt, v):
         return v if len(v) == 2 else ["var", v[1], v16(dt[1 + int(v[1])], v[2])]
     return v
 
+def v16b(dt, v):
+    """for free-size questions under utf16: keep `string` a string whose bytes are the UTF-16LE bytes
+    (block size = 2 * code units; `string` members always have a free helper, a `list<u16>` of a later
+    pass would not)"""
+    if isinstance(dt, str):
+        if dt == "string":
+            u = bytes(int(b) for b in v[1:]).decode("utf-8").encode("utf-16-le")
+            return ["s"] + [str(b) for b in u]
+        return v
+    k = dt[0]
+    if k == "list": return ["l"] + [v16b(dt[1], x) for x in v[1:]]
+    if k == "map": return ["l"] + [["r", v16b(dt[1], e[1]), v16b(dt[2], e[2])] for e in v[1:]]
+    if k == "record": return ["r"] + [v16b(f[1], x) for f, x in zip(dt[1:], v[1:])]
+    if k == "tuple": return ["r"] + [v16b(f, x) for f, x in zip(dt[1:], v[1:])]
+    if k == "variant": return v if len(v) == 2 else ["var", v[1], v16b(dt[1 + int(v[1])][1], v[2])]
+    if k == "option": return v if len(v) == 2 else ["var", v[1], v16b(dt[1], v[2])]
+    if k == "result": return v if len(v) == 2 else ["var", v[1], v16b(dt[1 + int(v[1])], v[2])]
+    return v
+
 def kinds(dt, acc):
     if isinstance(dt, str):
         if dt != "_": acc.add(dt)
@@ -520,6 +539,10 @@ class WorldRun:
     def vterm(self, dt, v):
         return show(v16(dt, v)) if self.enc == "utf16" else show(v)
 
+    def free_req(self, late, dt, v):
+        vv = show(v16b(dt, v)) if self.enc == "utf16" else show(v)
+        return f"cfree|8|{late}|{plain(dt)}|{vv}"
+
     def params_t(self, f): return "(record" + "".join(" " + self.tterm(d) for d in f["dparams"]) + ")"
     def params_v(self, f, vs): return "(r" + "".join(" " + self.vterm(d, v) for d, v in zip(f["dparams"], vs)) + ")"
 
@@ -553,6 +576,22 @@ class WorldRun:
             m = re.match(r"size=(\d+) align=(\d+) csize=(\d+) calign=(\d+)", ans)
             f[kind] = tuple(int(x) for x in m.groups()) if m else None
 
+    def model_requests_layout(self):
+        items = []
+        for f in self.funcs:
+            proto = self.protos.get(f["c_name"])
+            if proto is None: continue
+            for (ty, isptr, pn), kind in zip(proto[1], f["mcsig"]["params"]):
+                if not isptr: continue
+                if kind[0] == "p": dt = f["dparams"][int(kind[1:])]
+                elif kind[0] == "m": dt = f["dparams"][int(kind[1:])][1]
+                elif kind == "o:whole": dt = f["dresult"]
+                elif kind in ("o:some", "o:ok"): dt = f["dresult"][1]
+                elif kind == "o:err": dt = f["dresult"][2]
+                else: continue
+                items.append(((f["key"], pn), f"layout|8|{self.tterm(dt)}"))
+        return items
+
     def model_requests_cases(self):
         reqs = []
         for c in self.cases:
@@ -567,13 +606,13 @@ class WorldRun:
                 if c.result is not None:
                     mode = "mem" if sg["retptr"] else "flat"
                     reqs.append(("res", c.cid, f"lower|8|{mode}|{self.tterm(f['dresult'])}|{self.vterm(f['dresult'], c.result)}"))
-                    reqs.append(("rfree", c.cid, f"cfree|8|0|{self.tterm(f['dresult'])}|{self.vterm(f['dresult'], c.result)}"))
+                    reqs.append(("rfree", c.cid, self.free_req("0", f["dresult"], c.result)))
                 reqs.append(("argimg", c.cid, f"lower|8|mem|{self.params_t(f)}|{self.params_v(f, c.params)}"))
             # what the generated free helpers free for each argument (model of define_dtor):
             # complete registry (0) and the registry of a later pass (1)
             for k, (d, v) in enumerate(zip(f["dparams"], c.params)):
                 for late in ("0", "1"):
-                    reqs.append((f"pfree{late}_{k}", c.cid, f"cfree|8|{late}|{self.tterm(d)}|{self.vterm(d, v)}"))
+                    reqs.append((f"pfree{late}_{k}", c.cid, self.free_req(late, d, v)))
         return reqs
 
     # ---- 4. emit C
@@ -634,6 +673,27 @@ class WorldRun:
         if m: H.append(f"void {m.group(1)}(void) {{}}")
         by_fn = {}
         for c in self.cases: by_fn.setdefault(c.fn["key"], []).append(c)
+        # sizeof/_Alignof of every C type passed by pointer (tie of the C layout model, C10)
+        self.layout_items = []
+        for f in self.funcs:
+            proto = self.protos.get(f["c_name"])
+            if proto is None or "mcsig" not in f: continue
+            for (ty, isptr, pn), kind in zip(proto[1], f["mcsig"]["params"]):
+                if not isptr: continue
+                if kind[0] == "p": dt = f["dparams"][int(kind[1:])]
+                elif kind[0] == "m": dt = f["dparams"][int(kind[1:])][1]
+                elif kind == "o:whole": dt = f["dresult"]
+                elif kind == "o:some": dt = f["dresult"][1]
+                elif kind == "o:ok": dt = f["dresult"][1]
+                elif kind == "o:err": dt = f["dresult"][2]
+                else: continue
+                self.layout_items.append((f["key"], pn, ty, dt))
+        S.append("void layout_report(void) {")
+        for key, pn, ty, dt in self.layout_items:
+            S.append(f'out("SIZEOF {key} {pn} %u %u\\n", (unsigned) sizeof({ty}), (unsigned) _Alignof({ty}));')
+        S.append("}")
+        H.append("extern void layout_report(void);")
+        main.append("layout_report();")
         wasm_imports = parse_wasm_imports(self.c)
         defined = set()
         for f in self.funcs:
@@ -667,6 +727,11 @@ class WorldRun:
                         if h and kind[0] == "p": S.append(f"{h}({pn});")
                         if h and kind[0] == "m": S.append(f"if ({pn}) {h}({pn});")
                     S.append("led_phase('u');")
+                    if "autodrop" not in self.opts:
+                        for (ty, isptr, pn), dt in zip(cps, f["dparams"]):
+                            if isinstance(dt, list) and dt[0] == "borrow" and dt[1] not in self.exported_res:
+                                r = next(x for x in self.gen["resources"] if x["dir"] == "import" and x["id"] == dt[1])
+                                S.append(f"{r['ns']}_{r['name'].replace('-', '_').lower()}_drop_borrow({pn});")
                     S.append("led_owner('G');")
                     S += self.emit_result_build(E, f, c, outs, ret_t, "export")
                     S.append("}")
@@ -815,6 +880,26 @@ class WorldRun:
             elif wi["ret"] != "void":
                 body += f" return ({wi['ret']}) 0;"
             H.append(f"{wi['ret']} {wi['sym']}({plist}) {{ {body} }}")
+        # exported resources: new / rep / drop through the intrinsics, destructor through the export
+        wasm_exports = parse_wasm_exports(self.c)
+        self.dtor_exports = {}
+        for k, r in enumerate(x for x in self.gen["resources"] if x["dir"] == "export"):
+            snake = r["name"].replace("-", "_").lower()
+            pre = f"{r['ns']}_{snake}"
+            dsym = f"__wasm_export_{pre}_dtor"
+            self.dtor_exports[r["name"]] = next((n for n, e in wasm_exports.items() if e["sym"] == dsym), None)
+            S += [f"static struct {pre}_t reps_{k}[2];",
+                  f"void res_scenario_{k}(void) {{",
+                  f"for (int j = 0; j < 2; j++) {{",
+                  f"{r['ns']}_own_{snake}_t h = {pre}_new(&reps_{k}[j]);",
+                  f"{pre}_t *back = {pre}_rep(h);",
+                  f'out("REP %s %u\\n", back == &reps_{k}[j] ? "ok" : "BAD", (unsigned) (uintptr_t) &reps_{k}[j]);',
+                  f"{pre}_drop_own(h);",
+                  "}", "}",
+                  f"void *res_rep_{k}(int j) {{ return &reps_{k}[j]; }}"]
+            H += [f"extern void res_scenario_{k}(void);", f"extern void *res_rep_{k}(int j);", f"extern void {dsym}(void *);"]
+            main += [f'out("RES {r["name"]} {pre}\\n");', f"res_scenario_{k}();",
+                     f"{dsym}(res_rep_{k}(0));", f"{dsym}(res_rep_{k}(1));", f'out("RES-END\\n");']
         H.append("int main(void) {")
         H.append("rt_init();")
         H += main
@@ -917,11 +1002,24 @@ class WorldRun:
     def parse_log(self):
         cur = None
         self.obs = {}
+        self.res_obs = {}
+        self.sizeof = {}
         for line in self.log.split("\n"):
-            if line.startswith("CASE "):
+            if line.startswith("SIZEOF "):
+                _, key, pn, sz, al = line.split(" ")
+                self.sizeof[(key, pn)] = (int(sz), int(al))
+            elif line.startswith("RES "):
+                _, name, pre = line.split(" ")
+                cur = {"notes": [], "pre": pre, "ended": False}
+                self.res_obs[name] = cur
+            elif line.startswith("RES-END"):
+                cur["ended"] = True; cur = None
+            elif line.startswith("CASE "):
                 cur = {"guest": {}, "flat": None, "mem": [], "ledger": None, "untouched": None, "notes": [], "ended": False}
                 self.obs[int(line[5:])] = cur
             elif cur is None: continue
+            elif "guest" not in cur:
+                cur["notes"].append(line)
             elif line.startswith("GUEST-RECV "):
                 _, cid, k, term = line.split(" ", 3)
                 cur["guest"][k] = term
@@ -1006,6 +1104,17 @@ class WorldRun:
                     if got != exp_res:
                         vf.append(("import-result-value", "the C caller received a different result than the host returned",
                                    wit(c, {"returned": exp_res, "received": got})))
+            # ---- handles (C11): a borrow of an imported resource received by an export is dropped exactly
+            # once — by the bindings (autodrop) or by the user's `*_drop_borrow` — and nothing else is dropped
+            drops = sorted(int(n.split(" ")[2]) % (1 << 32) for n in o["notes"] if n.startswith("INTRINSIC ") and n.split(" ")[1].endswith("_drop"))
+            want = []
+            if f["dir"] == "export":
+                want = sorted(int(v[1]) for d, v in zip(f["dparams"], c.params)
+                              if isinstance(d, list) and d[0] == "borrow" and d[1] not in self.exported_res)
+            st["drops_checked"] = st.get("drops_checked", 0) + len(want)
+            if drops != want:
+                of.append(("borrow-drop-count", "borrowed handles of imported resources are not dropped exactly once per call",
+                           wit(c, {"dropped": drops, "expected": want})))
             # ---- ownership (C11)
             led = o["ledger"]
             if led is None:
@@ -1069,3 +1178,70 @@ class WorldRun:
                            f"{led['live']} allocation(s) of this call are still live after all owners released them (expected {expected_live})",
                            wit(c, {"events": evs})))
         return vf, of, st
+
+    def evaluate_resources(self):
+        """exported resources: new/rep/drop intrinsics and exactly-once destructor per host drop"""
+        of, n = [], 0
+        for r in self.gen["resources"]:
+            if r["dir"] != "export": continue
+            o = self.res_obs.get(r["name"])
+            w = {"wit": self.wit, "opts": self.opts, "enc": self.enc, "resource": r["name"]}
+            if not o or not o["ended"]:
+                of.append(("resource-scenario-incomplete", "the resource scenario did not run", w)); continue
+            n += 1
+            pre = o["pre"]
+            reps = [int(l.split(" ")[2]) for l in o["notes"] if l.startswith("REP ")]
+            bad = [l for l in o["notes"] if l.startswith("REP BAD")]
+            news = [int(l.split(" ")[2]) % (1 << 32) for l in o["notes"] if l.startswith(f"INTRINSIC __wasm_import_{pre}_new ")]
+            drops = [int(l.split(" ")[2]) % (1 << 32) for l in o["notes"] if l.startswith(f"INTRINSIC __wasm_import_{pre}_drop ")]
+            dtors = [int(l.split(" ")[2]) for l in o["notes"] if l.startswith(f"DTOR {pre} ")]
+            if bad or news != reps or drops != reps:
+                of.append(("resource-intrinsics", "new/rep/drop of an exported resource do not reach the intrinsics with the representation / handle",
+                           dict(w, notes=o["notes"])))
+            if dtors != reps:
+                of.append(("dtor-not-exactly-once", "the user destructor did not run exactly once per host drop", dict(w, notes=o["notes"])))
+        return of, n
+
+
+def run_batch(worlds, gen_bin, chost_bin, rng, ncases, jobs=16, sanitize=True, timeout=600):
+    """all phases for a list of WorldRun; returns (results, corr) where results[i] = dict per world"""
+    from vlib import run_lines
+    from concurrent.futures import ThreadPoolExecutor
+    gans = run_lines([gen_bin, "gen"], [w.gen_request() for w in worlds], timeout=timeout)
+    live = [w for w, a in zip(worlds, gans) if w.take_gen(a)]
+    names = sorted({n for w in live for n in w.names_needed()})
+    ids = run_lines([gen_bin, "ident"], [hx(n) for n in names], timeout=timeout)
+    idmap = {n: unhx(i) for n, i in zip(names, ids)}
+    cident = lambda n: idmap[n]
+    for w in live: w.plan(rng, ncases)
+    reqs = [(w, r) for w in live for r in w.model_requests_static()]
+    ans = run_lines([chost_bin], [r[2] for _, r in reqs], timeout=timeout)
+    for (w, (kind, key, _)), a in zip(reqs, ans): w.take_static(kind, key, a)
+    reqs = [(w, r) for w in live for r in w.model_requests_cases()]
+    ans = run_lines([chost_bin], [r[2] for _, r in reqs], timeout=timeout)
+    for (w, (kind, cid, _)), a in zip(reqs, ans): w.take_case(kind, cid, a)
+    reqs = [(w, r) for w in live for r in w.model_requests_layout()]
+    ans = run_lines([chost_bin], [r[1] for _, r in reqs], timeout=timeout)
+    for w in live: w.mlayout = {}
+    for (w, (key, _)), a in zip(reqs, ans):
+        m = re.match(r"size=(\d+) align=(\d+) csize=(\d+) calign=(\d+)", a)
+        w.mlayout[key] = tuple(int(x) for x in m.groups()) if m else None
+    def build_run(w):
+        try:
+            if w.write_and_build(cident, sanitize=sanitize): w.run()
+            else: w.log, w.stderr, w.obs, w.res_obs = "", "", {}, {}
+        except Exception as e:
+            import traceback
+            w.errors.append(("machinery", traceback.format_exc()[-2000:]))
+            w.log, w.stderr, w.obs, w.res_obs = "", "", {}, {}
+    with ThreadPoolExecutor(max_workers=jobs) as ex:
+        list(ex.map(build_run, live))
+    reqs = [(w, r) for w in live for r in w.lift_requests()]
+    ans = run_lines([chost_bin], [r[1] for _, r in reqs], timeout=timeout)
+    lifted = {}
+    for (w, (cid, _)), a in zip(reqs, ans): lifted.setdefault(id(w), {})[cid] = a
+    for w in live:
+        w.vf, w.of, w.st = w.evaluate(lifted.get(id(w), {}))
+        rof, w.nres = w.evaluate_resources()
+        w.of += rof
+    return live
